@@ -225,6 +225,25 @@ def _verdict_chunk(args):
                             problem = f"message {msg!r} reports {sorted(got_c)}; must contain {sorted(certain)} and stay within {sorted(possible)}"
                     if problem and len(out["violations"]) < 3:
                         out["violations"].append(dict(case="anything-nested-subjects", detail=problem, input=inp))
+            # 'sub modules of X should not import / be imported by anything': whether X's OWN imports count is left open by the documentation, so only the two
+            # certain cases are judged: an import from a strict sub module of X that leaves X's sub tree is a violation; no import leaving the sub tree at all is a pass
+            for imp in (True, False):
+                for x in rng.sample(cand, min(2, len(cand))):
+                    if not any(m.startswith(x + ".") for m in mods):
+                        continue
+                    kind, msg = outcome(make_rule([("sub", x)], "should_not", imp, False, None, anything=True), arch)
+                    I = set(imports) if imp else {(b, a_) for a_, b in imports}
+                    inside = desc_set(mods, x)
+                    certain = {(n, c) for (n, c) in I if n in inside and n != x and c not in inside}
+                    possible = {(n, c) for (n, c) in I if n in inside and c not in inside}
+                    if any((a_ == x and b.startswith(x + ".")) or (b == x and a_.startswith(x + ".")) for a_, b in imports):
+                        continue
+                    out["cases"] += 1
+                    if kind == "error" or (certain and kind != "fail") or (not possible and kind != "pass"):
+                        if len(out["violations"]) < 3:
+                            out["violations"].append(dict(case="verdict-anything-sub-modules", detail=f"sub modules of {x!r} should not {'import' if imp else 'be imported by'} anything: real outcome {kind} ({msg}); "
+                                                          f"imports of strict sub modules leaving the sub tree: {sorted(certain)}; of the sub tree as a whole: {sorted(possible)}",
+                                                          input=dict(tree=tree, imports=[list(p) for p in listed], subjects=[("sub", x)], verb="should_not", import_=imp, anything=True, sub_anything=True)))
             # the two 'anything' aliases (single and batched unrelated subjects)
             for imp in (True, False):
                 # ('sub modules of X ... anything' also judges X's own imports: documentation ambiguous, not claimed here;
@@ -348,6 +367,15 @@ def rerun_verdict(inp):
     listed = [tuple(p) for p in inp["imports"]]
     arch = build_arch(mods, listed)
     imports = sorted(arch_snapshot(arch)[1])
+    if inp.get("sub_anything"):
+        x = inp["subjects"][0][1]
+        kind, msg = outcome(make_rule([("sub", x)], "should_not", inp["import_"], False, None, anything=True), arch)
+        I = set(imports) if inp["import_"] else {(b, a) for a, b in imports}
+        inside = desc_set(mods, x)
+        certain = {(n, c) for (n, c) in I if n in inside and n != x and c not in inside}
+        possible = {(n, c) for (n, c) in I if n in inside and c not in inside}
+        ok = kind != "error" and not (certain and kind != "fail") and not (not possible and kind != "pass")
+        return ok, f"real outcome {kind} {msg!r}; certain violations {sorted(certain)}, possible {sorted(possible)}"
     if inp.get("nested"):
         S = [tuple(x) for x in inp["subjects"]]
         kind, msg = outcome(make_rule(S, "should_not", inp["import_"], False, None, anything=True), arch)
